@@ -153,6 +153,9 @@ class C01(Check):
         if case.get("part") == "server-config":
             import c01_cfg
             return c01_cfg.replay(case)
+        if case.get("part") == "handler-outcome" and not case.get("through_real_file_handler_with_filename"):
+            import c09_outcome
+            return c09_outcome.replay(case)
         return None
 
     def impl(self, c):
